@@ -32,7 +32,9 @@ Shapes == {"unit_struct", "tuple0", "tuple1", "tuple1_unit", "tuple2", "named0",
            \* raw identifiers as the names of field-less variants, of a struct and its fields, of a newtype
            "raw_unit_enum", "raw_struct", "raw_newtype",
            \* field types containing EXPRESSIONS: an array length that is a constant's path, a call, a const block
-           "array_const"}
+           "array_const",
+           \* field-less items that nevertheless have a where-clause
+           "unit_where", "tuple0_where", "named0_where", "enum_empty_where"}
 \* "field_pair": the first AND the second field carry an attribute each (two bodies): the derives that read all
 \* fields' attributes together (which marks may be mixed) have code only this reaches
 Positions == {"none", "item", "variant", "field", "field_pair"}
@@ -59,6 +61,7 @@ HasPosition(shape, pos) ==
     CASE pos = "none" -> TRUE
       [] pos = "item" -> TRUE
       [] pos = "variant" -> shape \in {"enum_unit", "enum_tuple", "enum_named", "enum_mixed", "generic_enum", "raw_names", "raw_unit_enum"}
-      [] pos = "field" -> shape \notin {"unit_struct", "tuple0", "named0", "enum_empty", "enum_unit", "raw_unit_enum"}
+      [] pos = "field" -> shape \notin {"unit_struct", "tuple0", "named0", "enum_empty", "enum_unit", "raw_unit_enum",
+                                          "unit_where", "tuple0_where", "named0_where", "enum_empty_where"}
       [] pos = "field_pair" -> shape \in {"tuple2", "named2", "enum_mixed", "raw_struct", "union", "array_const"}
 =============================================================================
